@@ -50,30 +50,39 @@ pub mod proofs {
     use super::*;
 
     fn pre_state(other_registered: bool) {
+        pre_state2(other_registered, 0)
+    }
+    /// `also_slot`: a signal that already has a slot (e.g. because somebody used
+    /// an unchecked entry point for it earlier and removed the action again)
+    fn pre_state2(other_registered: bool, also_slot: c_int) {
         reg::init_globals();
-        if other_registered {
+        if other_registered || also_slot != 0 {
             let mut b = reg::StateBuilder::new();
-            b.slot(SB, 0, 0);
-            install(SB);
-            b.action(SB, 1, reg::action_from(|_| hit(9)));
+            if other_registered {
+                b.slot(SB, 0, 0);
+                install(SB);
+                b.action(SB, 1, reg::action_from(|_| hit(9)));
+            }
+            if also_slot != 0 {
+                b.slot(also_slot, 0, 0);
+                install(also_slot);
+            }
             b.publish(2);
         }
         open_fd(FD as usize, FdKind::Stream, 3, 0, false);
         unsafe { vshim::HOOKS.state_change = state_change };
     }
 
-    /// forbidden signals x every checked entry point: the call never returns and
-    /// nothing is changed before the refusal.
-    #[kani::proof]
-    #[kani::unwind(40)]
-    pub fn c14_forbidden_refused_everywhere() {
-        let other: bool = kani::any();
-        pre_state(other);
+    /// forbidden signal x one checked entry point: the call never returns and
+    /// nothing is changed before the refusal (also when the signal already has a
+    /// slot because an unchecked entry point took it over earlier).
+    fn forbidden_refused(e: u8) {
         let sig: c_int = kani::any();
         kani::assume(forbidden(sig));
+        let has_slot: bool = kani::any();
+        kani::assume(!has_slot || (sig != libc::SIGKILL && sig != libc::SIGSTOP));
+        pre_state2(false, if has_slot { sig } else { 0 });
         assert!(FORBIDDEN.contains(&sig), "C14: the library's list of forbidden signals lacks KILL/STOP/ILL/FPE/SEGV");
-        let e: u8 = kani::any();
-        kani::assume(e < 7);
         let fb = Arc::new(AtomicBool::new(false));
         let fu = Arc::new(AtomicUsize::new(0));
         unsafe { ARMED = true };
@@ -82,17 +91,13 @@ pub mod proofs {
         core::mem::forget((r, fb, fu));
     }
 
-    /// numbers the kernel rejects (the whole c_int range) x every checked entry point
-    #[kani::proof]
-    #[kani::unwind(40)]
-    pub fn c14_kernel_rejected_is_err_everywhere() {
+    /// a number the kernel rejects (whole c_int range) x one checked entry point
+    fn rejected_is_err(e: u8) {
         let other: bool = kani::any();
         pre_state(other);
         unsafe { ARCS::real_drop = true };
         let sig: c_int = kani::any();
         kani::assume(!forbidden(sig) && kernel_rejects(sig, true));
-        let e: u8 = kani::any();
-        kani::assume(e < 7);
         let fb = Arc::new(AtomicBool::new(false));
         let fu = Arc::new(AtomicUsize::new(0));
         let arcs0 = unsafe { ARCS::next };
@@ -115,15 +120,38 @@ pub mod proofs {
             }
         }
         kani::cover!(sig < 0, "negative number");
-        kani::cover!(sig > 64 && e == 6, "too large, self-pipe entry");
-        kani::cover!(sig == 0 && e == 5 && other, "zero, conditional default, other signal registered");
-        kani::cover!(sig == 33, "reserved by the C library");
+        kani::cover!(sig > 64, "beyond the last signal");
+        kani::cover!(sig == 33 && other, "reserved by the C library, another signal registered");
         core::mem::forget((fb, fu));
+    }
+
+    macro_rules! per_entry {
+        ($($f:ident, $r:ident, $e:expr, $u:expr;)*) => {$(
+            #[kani::proof]
+            #[kani::unwind($u)]
+            pub fn $f() {
+                forbidden_refused($e);
+            }
+            #[kani::proof]
+            #[kani::unwind($u)]
+            pub fn $r() {
+                rejected_is_err($e);
+            }
+        )*};
+    }
+    per_entry! {
+        c14_forbidden_registry_register, c14_rejected_registry_register, 0, 7;
+        c14_forbidden_registry_register_sigaction, c14_rejected_registry_register_sigaction, 1, 7;
+        c14_forbidden_flag_register, c14_rejected_flag_register, 2, 7;
+        c14_forbidden_flag_register_usize, c14_rejected_flag_register_usize, 3, 7;
+        c14_forbidden_flag_conditional_shutdown, c14_rejected_flag_conditional_shutdown, 4, 7;
+        c14_forbidden_flag_conditional_default, c14_rejected_flag_conditional_default, 5, 40;
+        c14_forbidden_pipe_register_raw, c14_rejected_pipe_register_raw, 6, 7;
     }
 
     /// the unchecked entry points accept forbidden numbers and pass the kernel's verdict through
     #[kani::proof]
-    #[kani::unwind(40)]
+    #[kani::unwind(7)]
     pub fn c14_unchecked_pass_verdict_through() {
         pre_state(false);
         let sig: c_int = kani::any();
